@@ -75,3 +75,16 @@ Theorem C07_machine_invariant : forall c fc ai A h st outs,
   Inv7 A (fst st) (recv_cc [] (all_midi outs)).
 Proof. exact machine_c07_invariant. Qed.
 Print Assumptions C07_machine_invariant.
+
+(* ---- at the PORT (Model/EndToEnd.v: any number of devices composed with the relay of C15, all interleavings, any channel
+   capacities): at every event boundary of device k - nothing of the events it has taken left to hand over or in flight - at most
+   one controller of each bidirectional pair is non-zero at the receiver behind the port. *)
+From HIDI Require Import Model.Relay Model.EndToEnd Proofs.EndToEndProofs.
+Theorem C07_at_the_port : forall ds port_cap out_cap s k d c h A,
+  reachable (estep port_cap out_cap) (einit ds) s -> nth_error (e_devs s) k = Some d -> nth_error ds k = Some (c, h) ->
+  at_boundary s k d -> cc_family A -> Forall (c07_event c A) h ->
+  let R := recv_cc [] (at_port s k) in
+  forall a, In a A -> a_bidi a = true ->
+    cc_value R (pos_key (d_state d) a) = 0%N \/ cc_value R (neg_key (d_state d) a) = 0%N.
+Proof. exact e2e_cc_at_most_one. Qed.
+Print Assumptions C07_at_the_port.
